@@ -1181,7 +1181,7 @@ Proof.
   induction batch as [|[i r] rest IH]; intros decs done ts out ts' out' done' H F; simpl in F.
   - inversion F; subst. apply keeps_all_refl.
   - destruct (mem_nat i done) eqn:Em.
-    + eapply IH; [|exact F]. intros j r' Hin. apply H. right; auto.
+    + eapply IH; [|exact F]. intros j r' Hin. apply (H j r'). right; auto.
     + assert (Hnd : ~ In i done) by (intros Hin; apply mem_nat_In in Hin; congruence).
       assert (Hlive : forall t, nth_error ts i = Some t -> fin t = Live) by (apply (H i r); [left; auto|auto]).
       assert (K1 : keeps_all ts (upd i (t_deliver r) ts)).
